@@ -38,7 +38,7 @@ CHECKS = {
    note="A level-0 constant opens a scope in this assembler: positions where that matters are Unspecified for the moved-constant family. One genuine deviation (declarations inside #if arms do not scope what follows) is a recorded known finding."),
  "C16": dict(level="model_checking", design="DESIGN.md §4 C16, §3.6",
    technique="exhaustive enumeration of condition trees x constant valuations x define assignments against a reference interpreter (ifworld)",
-   text="Six complete families — condition trees (all chain shapes to a depth, all condition forms, all valuations, constants before/after/behind alias chains), feeding chains in all textual orders, references to arm-local symbols, define assignments (every subset of {A,B,C} x 8 values, hierarchical/undeclared/dead-arm/label names), undecidable and non-boolean conditions, and a driver sub-grid with every -d spelling — are compared (success, marker bytes, visible symbols, or an error) with a reference interpreter written from the property statement.",
+   text="Eight complete families — condition trees (all chain shapes to a depth, all condition forms, all valuations, constants before/after/behind alias chains), feeding chains in all textual orders, references to arm-local symbols, define assignments (every subset of {A,B,C} x 8 values, hierarchical/undeclared/dead-arm/label names), undecidable and non-boolean conditions, relative references and block locals in conditions and in the constants they read, and a driver sub-grid with every -d spelling — are compared (success, marker bytes, visible symbols, or an error) with a reference interpreter written from the property statement.",
    note="states = distinct worlds (visible items + known constants) reached by the model, transitions = splices. Cases the statement does not determine (a name declared twice among visible items, lazily decidable conditions, local scoping across arm boundaries) carry no verdict. A defect found was repaired (fix: 034af25)."),
  "C10": dict(level="exploration", design="DESIGN.md §4 C10",
    technique="exhaustive enumeration of job histories and thread placements in one process against fresh-process baselines; repetition over fresh processes for the hash-seed dimension (sampled, labelled)",
@@ -62,7 +62,7 @@ CHECKS = {
    note="Quick uses seeds of <= 40 tokens and a 16-token alphabet; thorough all 602 seeds, 48 tokens and all double edits of seeds <= 14 tokens. Slow runs belong to C19. Ten defects found by this check were repaired (see known_findings.json)."),
  "C04": dict(level="model_checking", design="DESIGN.md §4 C04",
    technique="bounded exhaustive enumeration of (type, width, value, spelling) against a closed-form reference predicate",
-   text="Every (type u/s/i, width 0..16, value in [-2^N-4, 2^N+4], six spellings) triple and every #dN case is assembled with the real assembler and compared with the property's own inequalities and the low-N-bits emission rule; widths 17..256 at every boundary. Complete enumeration of a finite space, so an off-by-one at any width/sign is hit.",
+   text="Every (type u/s/i, width 0..16, value in [-2^N-4, 2^N+4], six spellings) triple and every #dN case is assembled with the real assembler and compared with the property's own inequalities and the low-N-bits emission rule; widths 17..256 at every boundary; the same decision for rule bodies that never read the parameter, for values handed on to a second typed parameter and for arguments that are the instruction's final address. Complete enumeration of a finite space, so an off-by-one at any width/sign is hit.",
    note="Trusts rustc/std/num-bigint and the marker framing (0xa5 before, 1 bit after the field). Quick tier enumerates widths 0..9 completely and 10..16 at boundaries; thorough 0..16 completely."),
  "C05": dict(level="model_checking", design="DESIGN.md §4 C05, §3.2",
    technique="bounded exhaustive enumeration of expression trees, literal spellings and strings against an independent reference evaluator",
@@ -80,7 +80,7 @@ CHECKS = {
 
  "C19": dict(level="exploration", design="DESIGN.md §4 C19",
    technique="complete grid site x magnitude executed on the real binary under ulimit, one process per case",
-   text="About 90 sites (nesting of every bracket/operator/directive form, operator chains, cycles of length 1..4 through functions/asm rules/sub-rules/includes/constants, every numeric position: shifts, slices, widths, #res/#align/#addr, every #bankdef field, incbin ranges, literal/string/element counts) x a magnitude ladder (depths 10^k and 2*10^k, values around 2^7..2^65, 2^1000, 2^(2^20)) run on the real binary with 2 GiB address space, 8 MiB stack and a CPU budget: each run must end with exit 0 or exit 1 plus an error line — never a signal, exit 101, timeout or memory-cap death, and no success that contradicts unbounded-integer meaning.",
+   text="About 90 sites (nesting of every bracket/operator/directive form, operator chains, cycles of length 1..4 through functions/asm rules/sub-rules/includes/constants, every numeric position: shifts, slices, widths, #res/#align/#addr, every #bankdef field, incbin ranges, literal/string/element counts, the digit-group size and iteration budget on the command line) x a magnitude ladder (depths 10^k and 2*10^k, values around 2^7..2^65, 2^1000, 2^(2^20)) run on the real binary with 2 GiB address space, 8 MiB stack and a CPU budget: each run must end with exit 0 or exit 1 plus an error line — never a signal, exit 101, timeout or memory-cap death, and no success that contradicts unbounded-integer meaning.",
    note="39 (site, kind) pairs are recorded known findings (stack overflows on deep nesting/chains; positions without a magnitude limit, where the CPU budget or the 2 GiB cap runs out), each listing the ladder magnitudes that fail on the recorded tree; a new site, a new kind or another magnitude at a listed site is a violation. The overflow panics found were repaired (fix: 878505b, 99b6062, 538f4e1). After a time-out the quick tier skips only the magnitudes its known finding lists (reported, exhaustive=false for those)."),
 }
 
